@@ -66,7 +66,7 @@ inline std::string checkExtractedWav(const std::vector<uint8_t>& b, const WaveFo
 	return "";
 }
 
-struct ClmMember { std::string name; std::vector<uint8_t> data; };
+struct ClmMember { std::string name; std::vector<uint8_t> data; uint64_t tailSeed = 0; }; // tailSeed != 0: stale bytes after the name's NUL terminator
 struct ClmField { std::string name; size_t off; int width; };
 struct ClmImage { std::vector<uint8_t> bytes; std::vector<ClmField> fields; };
 
@@ -97,7 +97,11 @@ inline ClmImage encodeClm(const WaveFormat& fmt, const std::vector<ClmMember>& m
 	for (size_t i = 0; i < ms.size(); ++i) {
 		std::string p = "e" + std::to_string(i) + ".";
 		field(p + "name", 8);
-		for (size_t k = 0; k < 8; ++k) b.push_back(k < ms[i].name.size() ? static_cast<uint8_t>(ms[i].name[k]) : 0);
+		{
+			// the name ends at the first NUL; what follows inside the 8-byte field is padding - zero, or (legal) leftovers of a packer's buffer
+			std::vector<uint8_t> tail = ms[i].tailSeed ? prngBytes(ms[i].tailSeed, 8) : std::vector<uint8_t>(8, 0);
+			for (size_t k = 0; k < 8; ++k) b.push_back(k < ms[i].name.size() ? static_cast<uint8_t>(ms[i].name[k]) : k == ms[i].name.size() ? 0 : tail[k]);
+		}
 		field(p + "offset", 4); putU32(b, off);
 		field(p + "length", 4); putU32(b, static_cast<uint32_t>(ms[i].data.size()));
 		off += static_cast<uint32_t>(ms[i].data.size());
